@@ -285,6 +285,13 @@ func negotiateFeatures(ctx context.Context, s *Session, first, ws bool, features
 		mask, rw, err = data.feature.Negotiate(ctx, s, s.features[data.feature.Name.Space])
 		s.in.d = oldDecoder
 		if err == nil {
+			// Do not count a feature as negotiated (and do not apply its state
+			// bits) for a context that was canceled in the meantime; nothing may
+			// have been in a position to notice, e.g. on a transport without
+			// deadlines.
+			err = ctx.Err()
+		}
+		if err == nil {
 			s.state |= mask
 		}
 		s.negotiated[data.feature.Name.Space] = struct{}{}
